@@ -61,6 +61,10 @@ def run(P, rep, tier):
     from . import c05
 
     rep.attempt(c05.r4_copy_coverage, P, rep, ctx)
+    from .common import r_path_prefix_tests
+
+    rep.attempt(r_path_prefix_tests, P, rep, ctx, "C01.R11", {"ih5.overlay", "ih5.record"})
+    rep.attempt(r_path_prefix_tests, P, rep, ctx, "C06.R11", {"container.interface", "container.wrappers"})
     # an operation that only one driver supports: rewriting a stored dataset in place (h5py allows it, an IH5 dataset of an
     # earlier patch refuses) -- the container code replaces datasets instead (rule id C06.R8)
     from . import c06
@@ -71,6 +75,8 @@ def run(P, rep, tier):
     from . import c03
 
     rep.attempt(c03.r3_name_language, P, rep, ctx)
+    # an exception inside `with container:` must not roll the session back on one driver only
+    rep.attempt(c03.r7_discard_is_the_users_call, P, rep, ctx)
     rep.floor("C09.R1", 45, "raw uses")
     rep.floor("C09.R2", 40)
     rep.floor("C09.R3", 3)
